@@ -570,14 +570,9 @@ pub mod uniremote {
                     stream_header::ParseError::InvalidSessionId,
                 )) => Err(IoReadError::H3(ErrorCode::Id)),
 
-                Err(stream_header::IoReadError::IO(io_error)) => {
-                    if matches!(io_error, bytes::IoReadError::UnexpectedFin) {
-                        // TODO(bfesta): Check if this scenario use Frame code error
-                        Err(IoReadError::H3(ErrorCode::Frame))
-                    } else {
-                        Err(IoReadError::IO(io_error))
-                    }
-                }
+                // A stream closed (or reset) before its header is complete is not a protocol
+                // error: RFC 9114 section 6.2 requires receivers to tolerate it.
+                Err(stream_header::IoReadError::IO(io_error)) => Err(IoReadError::IO(io_error)),
             }
         }
     }
